@@ -179,6 +179,7 @@ type RowC struct {
 	PBoth  *BothT                 `sql:",binary"`
 	BinO   BinOnlyT               `sql:",binary"`
 	JMar   JsonT                  `sql:",json"`
+	JS     string                 `sql:",json"` // a plain string kept as a JSON document
 	Sc     ScanT
 	PSc    *ScanT
 	Proto  thunderpb.Field  `sql:",binary"`
